@@ -71,13 +71,14 @@ inline std::string esc(const std::string& s)
 struct Obj
 {
     std::string body;
+    std::string prefix;
     void kv(const std::string& k, const std::string& v)
     {
         if(!body.empty())
         {
             body += ",";
         }
-        body += "\"" + esc(k) + "\":\"" + esc(v) + "\"";
+        body += "\"" + esc(prefix + k) + "\":\"" + esc(v) + "\"";
     }
 };
 
@@ -147,7 +148,19 @@ struct tagname
     }                                \
     static_assert(true, "")
 
+template<class Tag>
+struct is_builtin_tag : std::false_type
+{
+};
 #define C18_BUILTIN(N)                        \
+    template<>                                \
+    struct is_builtin_tag<sbepp::N##_t> : std::true_type       \
+    {                                         \
+    };                                        \
+    template<>                                \
+    struct is_builtin_tag<sbepp::N##_opt_t> : std::true_type   \
+    {                                         \
+    };                                        \
     template<>                                \
     struct tagname<sbepp::N##_t>              \
     {                                         \
@@ -679,6 +692,37 @@ void emit_message(const char* path)
     flush("ENT", path, "message", o);
 }
 
+// the traits of the built-in type behind a field declared with a primitive
+// type (type_traits<field_traits<Tag>::value_type_tag>), keys prefixed vt_
+template<class VTag, bool = is_builtin_tag<VTag>::value>
+struct put_builtin_traits
+{
+    static void go(Obj&)
+    {
+    }
+};
+template<class VTag>
+struct put_builtin_traits<VTag, true>
+{
+    static void go(Obj& o)
+    {
+        typedef sbepp::type_traits<VTag> TT;
+        Obj t;
+        t.prefix = "vt_";
+        put_presence<TT>::go(t);
+        t.kv("primitive_type", prim_name<typename has_primitive_type<TT>::type>::get());
+        put_min_value<TT>::go(t);
+        put_max_value<TT>::go(t);
+        put_null_value<TT>::go(t);
+        put_length<TT>::go(t);
+        if(!o.body.empty() && !t.body.empty())
+        {
+            o.body += ",";
+        }
+        o.body += t.body;
+    }
+};
+
 template<class Tag>
 void emit_field(const char* path)
 {
@@ -694,6 +738,7 @@ void emit_field(const char* path)
     {
         o.kv("value_type_tag", tagname<typename has_value_type_tag<TT>::type>::get());
     }
+    put_builtin_traits<typename has_value_type_tag<TT>::type>::go(o);
     o.kv("tag_kinds", kinds<Tag>());
     flush("ENT", path, "field", o);
 }
